@@ -55,13 +55,13 @@ def run_demo(d, demo):
     return rc, out.strip()[-600:]
 
 
-def do_import(pid, k):
-    src = os.path.join(SRC, "out-" + pid)
+def do_import(pid, k, rnd=1):
+    src = os.path.join(SRC if rnd == 1 else SRC + str(rnd), "out-" + pid)
     patch, demo, meta = [os.path.join(src, "%s_%s.%s" % (n, k, e)) for n, e in (("patch", "diff"), ("demo", "py"), ("meta", "json"))]
     for f in (patch, demo):
         if not os.path.exists(f):
             raise SystemExit("missing " + f)
-    name = "%s-%s" % (pid, k)
+    name = "%s-%s" % (pid, int(k) + 2 * (rnd - 1))        # round 2 changes are stored as <id>-3, <id>-4
     clean = scratch(name + "-clean")
     rc0, out0 = run_demo(clean, demo)
     mut = scratch(name + "-mut", patch)
@@ -129,7 +129,7 @@ def do_run(name, tier="quick", props=None, inplace=False):
 def main():
     a = sys.argv[1:]
     if a[0] == "import":
-        return do_import(a[1], a[2])
+        return do_import(a[1], a[2], int(a[a.index("--round") + 1]) if "--round" in a else 1)
     tier = a[a.index("--tier") + 1] if "--tier" in a else "quick"
     props = a[a.index("--props") + 1].split(",") if "--props" in a else None
     if a[0] == "run":
